@@ -87,7 +87,12 @@ def job_definition(P, taps, W, cplx, layout='contig'):
     with volt_patches():
         fb, _ = mk_fb(taps, P)
         x = sym_stream('x', W * taps * P, complex_=cplx)
-        out = fb.channelize(strided(x, layout), cache=False)
+        if layout == 'int':
+            # integer-typed samples (quantised voltages): the window-weighted sums are not integers
+            x = x.astype(npx.SymDType('i'))
+            out = fb.channelize(x, cache=False)
+        else:
+            out = fb.channelize(strided(x, layout), cache=False)
         ws = [lift(w) for w in fb.window]
         pairs = check_out(out, stream_terms(x), ws, P, taps, (W - 1) * taps)
     pl = dict(fn='pfb', P=P, taps=taps, chunks=[W], cplx=cplx, scenario='oneshot', layout=layout)
@@ -474,6 +479,9 @@ def replay_pfb(p):
         base = rng.standard_normal(2 * tot).astype(x.dtype)
         base[::2] = x
         x = base[::2]
+    elif p.get('layout', 'contig') == 'int':
+        x = np.round(x * 20).astype(np.int8 if tot % 2 else np.int64)
+        ref = ref_pfb(x.astype(float), w, P, taps)[:, :P // 2]
     elif p.get('layout', 'contig') == 'column':
         base = rng.standard_normal((tot, 3)).astype(x.dtype)
         base[:, 1] = x
@@ -557,6 +565,7 @@ def main():
         for taps in tapss:
             for cplx in (False, True):
                 jobs.append(('job_definition', (P, taps, 3, cplx)))
+            jobs.append(('job_definition', (P, taps, 2, False, 'int')))
             for layout in ('every2', 'column'):
                 jobs.append(('job_definition', (P, taps, 2, layout == 'column', layout)))
             jobs.append(('job_linear', (P, taps, 2)))
